@@ -98,7 +98,7 @@ class _Buck4_Spline_Factory(object):
 
       r_min = spline_defn.parameters[0]
 
-      if not r_min < attach_point.r and not r_min > detach_point.r:
+      if not (detach_point.r < r_min < attach_point.r):
         raise ConfigurationException("spline modifier with 'buck4_spline' r_min parameter does not lie between detach and attach values ({} < r_min < {}). r_min = {}".format(
           detach_point.r, attach_point.r, r_min))
 
